@@ -289,6 +289,11 @@ def rule_unchecked_inventory(ctx, R):
     g = ctx.gecs
     # reverse call graph inside gecs (closures hang under their parent)
     callers = {}
+    from .r_storage2 import bare_ty
+    dtors = {}  # bare type name -> path of its Drop::drop in gecs
+    for path in g.fns:
+        if path.startswith("<") and path.endswith(" as std::ops::Drop>::drop"):
+            dtors[bare_ty(path[1:].split(" as std::ops::Drop>")[0])] = path
     for path, fn in g.fns.items():
         par = fn.d.get("parent")
         if fn.kind == "Closure" and par:
@@ -299,6 +304,11 @@ def rule_unchecked_inventory(ctx, R):
                 c = g.lookup(t["f"])
                 if c is not None and c.path != path:
                     callers.setdefault(c.path, set()).add(path)
+            elif t["k"] == "drop":
+                # a compiler-inserted drop of a gecs-local guard type runs that type's Drop impl: a call edge like any other
+                d_ = dtors.get(bare_ty(t["ty"]))
+                if d_ is not None and d_ != path:
+                    callers.setdefault(d_, set()).add(path)
 
     def owners_of(path, seen=None):
         """table families this function's unchecked code is attributed to; None = reaches no reviewed family"""
